@@ -1206,24 +1206,28 @@ def gen_setops_two_ir(rng):
 
 
 def gen_C06_nodes(rng, nops=None):
-    """node-level histories on a quasi-reduced forest with pessimistic deletion:
-    nodes created through unpacked nodes (duplicates found in the unique table,
-    all-transparent nodes), references duplicated and dropped in random order
-    (chains of reclamation), everything dropped at the end"""
+    """node-level histories on a quasi-reduced forest with pessimistic or optimistic
+    deletion: nodes created through unpacked nodes (duplicates found in the unique
+    table, all-transparent nodes, under the optimistic policy unreferenced nodes kept
+    by a cache entry and revived), references duplicated and dropped in random order
+    (chains of reclamation), cache entries added and removed (forest::cacheNode /
+    uncacheNode), everything released at the end in random order"""
     k = rng.choice([2, 3, 3, 4])
     sizes = [rng.choice([2, 2, 3]) for _ in range(k)]
+    pol = rng.choice(["pess", "opt"])
     # held node references are not registered root edges: the audit's two count clauses
     # are replaced here by the node-level count observations themselves
     L = ["init " + rand_ctopts(rng), "auditmode lenient", "domain D " + " ".join(map(str, sizes)),
-         "forest F D set int mt qr del=pess " + rand_opts(rng).replace("del=opt", "").replace("del=never", "").replace("del=pess", "")]
+         "forest F D set int mt qr del=" + pol + " " + rand_opts(rng).replace("del=opt", "").replace("del=never", "").replace("del=pess", "")]
     held = {}     # name -> level of its node (0: the transparent edge)
+    toks = []
     n = 0
     made = []     # (level, children) of earlier requests: re-requested to hit the unique table
     for step in range(nops or rng.randint(15, 60)):
         r = rng.random()
-        if r < 0.5 or not held:
+        if r < 0.42 or not held:
             lv = rng.randint(1, k)
-            if made and rng.random() < 0.25:
+            if made and rng.random() < 0.3:
                 lv, cs = rng.choice(made)
                 if not all(c[0] == "t" or c in held for c in cs):
                     continue
@@ -1240,22 +1244,33 @@ def gen_C06_nodes(rng, nops=None):
             transparent = all(c == "t0" or held.get(c) == 0 for c in cs)
             held[nm] = 0 if transparent else lv
             made.append((lv, cs))
-        elif r < 0.65:
+        elif r < 0.54:
             x = rng.choice(list(held))
             n += 1
             nm = "n%d" % n
             L.append("ndup %s %s" % (nm, x))
             held[nm] = held[x]
+        elif r < 0.68:
+            cand = [x for x, l in held.items() if l > 0]
+            if not cand:
+                continue
+            n += 1
+            t = "T%d" % n
+            L.append("ncache %s %s" % (t, rng.choice(cand)))
+            toks.append(t)
+        elif r < 0.78 and toks:
+            t = toks.pop(rng.randrange(len(toks)))
+            L.append("nuncache %s" % t)
         else:
             x = rng.choice(list(held))
             L.append("ndrop %s" % x)
             del held[x]
-        if step % 9 == 8:
+        if step % 9 == 8 and not toks:
             L.append("audit F")
-    names = list(held)
-    rng.shuffle(names)
-    for x in names:
-        L.append("ndrop %s" % x)
+    rest = [("ndrop", x) for x in held] + [("nuncache", t) for t in toks]
+    rng.shuffle(rest)
+    for c, x in rest:
+        L.append("%s %s" % (c, x))
     L.append("audit F")
     return "\n".join(L) + "\n"
 
